@@ -45,6 +45,15 @@ func c16Lattice(res *vResult, cfg vCfg, only *c16Case) {
 			return
 		}
 		res.outcome(fmt.Sprintf("accepted=%v", ctx.accepted))
+		if ctx.newSess != nil && ctx.newSess.pdr(3) != nil {
+			// the same rules arriving through a modification: Update PDR with every precedence of the lattice
+			for _, prec := range []uint32{0, 100, 65534, 65535, 65536} {
+				up3, up4 := ctx.newSess.pdr(3).sPDR, ctx.newSess.pdr(4).sPDR
+				up3.Prec, up4.Prec = prec, prec
+				sys.exec(&sessReq{sReq: sReq{Kind: kMod, Conn: 0, UpdatePDR: []sPDR{up3, up4}}, Sess: ctx.newSess.Idx})
+				check(cs, label+fmt.Sprintf(" then Update PDR precedence %d", prec))
+			}
+		}
 		if ctx.newSess != nil {
 			// exercise MODIFY and DELETE of the same entries
 			sys.exec(&sessReq{sReq: sReq{Kind: kMod, Conn: 0, UpdateFAR: []sFAR{{ID: 2, Action: ActionForward, HasFwd: true, HasDst: true, Dst: ie.DstInterfaceAccess, OHCIP: "11.1.1.140", OHCTEID: 0xFFFFFFFF}}}, Sess: ctx.newSess.Idx})
